@@ -893,11 +893,11 @@ class ExpectationPropagation:
         )
         self.mutation_edges[singletons] = switched_edges
         self.mutation_nodes[singletons] = self.edge_children[switched_edges]
-        switched = self.mutation_phase < 0.5
-        self.mutation_phase[switched] = 1 - self.mutation_phase[switched]
-        logger.info(f"Switched phase of {np.sum(switched)} singletons")
 
         if rescale_intervals > 0 and rescale_iterations > 0:
+            # NB: rescaling splits each unphased singleton between its two candidate
+            # edges using the phase relative to the first edge of its block, so it
+            # must run before the phase is flipped for switched singletons below
             rescale_timing = time.time()
             self.rescale(
                 rescale_intervals=rescale_intervals,
@@ -908,6 +908,10 @@ class ExpectationPropagation:
             )
             rescale_timing -= time.time()
             logger.info(f"Timescale rescaled in {abs(rescale_timing):.2f} seconds")
+
+        switched = self.mutation_phase < 0.5
+        self.mutation_phase[switched] = 1 - self.mutation_phase[switched]
+        logger.info(f"Switched phase of {np.sum(switched)} singletons")
 
     def node_moments(self):
         # Posterior mean and variance of node ages (equivalent to node_posteriors)
